@@ -165,4 +165,18 @@ def genesisChainConfig (h : String → Nat → Nat) (peers : List Peer) : ChainC
   let t := initTable peers
   { N := peers.length, C := peers.length / 3, posTable := shuffle h peers (t.length - 1) t }
 
+/-! ### GetPeersConfig (consensus/vbft/utils.go): the pool handed to GenesisChainConfig -/
+
+/-- `node_manager.PeerPoolItem` (status 0 = candidate, 1 = consensus, 2 = quitting, 3 = black) -/
+structure PoolItem where
+  index : Nat
+  pubkey : String
+  status : Nat
+deriving Repr, DecidableEq
+
+/-- `for _, id := range peerMap.PeerPoolMap { if candidate or consensus { append } }`: `pool` lists the map's values in
+    the iteration order of that `range` (unspecified in Go). -/
+def peersConfig (pool : List PoolItem) : List Peer :=
+  (pool.filter fun p => p.status == 0 || p.status == 1).map fun p => ⟨p.index, p.pubkey⟩
+
 end Poly.Model.VBFT
